@@ -239,17 +239,34 @@ func C16(c *Ctx) {
 			}
 		}
 		nput := 0
-		for _, f := range c.P.FuncsIn("cmd/mcrew") {
+		litClosure := map[*ssa.Function]bool{}
+		if lit != nil {
+			for _, lf := range pkgClosure(lit) {
+				litClosure[lf] = true
+			}
+		}
+		all := c.P.FuncsIn("cmd/mcrew")
+		for _, f := range pkgClosure(writeState) {
 			ssau.Instrs(f, func(in ssa.Instruction) {
-				if ci, ok := in.(ssa.CallInstruction); ok {
-					n := ssau.CalleeName(ci)
-					if strings.HasSuffix(n, "Bucket).Put") || strings.HasSuffix(n, "Bucket).Delete") {
-						if f.Name() == "WriteState" || (f.Parent() != nil && f.Parent() == writeState) {
-							nput++
-							c.R.Check(f == lit, "C16-R3", fmt.Sprintf("WriteState: record write #%d inside the transaction literal", nput), c.pos(in), "inside db.Update's function", "a record is written outside the single transaction")
+				ci, ok := in.(ssa.CallInstruction)
+				if !ok {
+					return
+				}
+				n := ssau.CalleeName(ci)
+				if !(strings.HasSuffix(n, "Bucket).Put") || strings.HasSuffix(n, "Bucket).Delete")) {
+					return
+				}
+				nput++
+				inside := litClosure[f]
+				if inside && f != lit {
+					// a helper: every caller must itself be inside the transaction
+					for _, s := range callSitesOf(f, all) {
+						if !litClosure[s.Parent()] {
+							inside = false
 						}
 					}
 				}
+				c.R.Check(inside, "C16-R3", fmt.Sprintf("WriteState: record write #%d inside the transaction", nput), c.pos(in), "inside db.Update's function (or a helper only it calls)", "a record is written outside the single transaction")
 			})
 		}
 		if nput < 2 {
